@@ -36,6 +36,8 @@ func main() {
 	case "codec":
 		setupLogger()
 		runCodec(os.Args[2:])
+	case "cluster":
+		runCluster(os.Args[2:])
 	default:
 		fmt.Fprintln(os.Stderr, "unknown engine", os.Args[1])
 		os.Exit(2)
